@@ -18,7 +18,8 @@ RULE = ("Hypothesis-generated histories: 1-2 root objects on one resource plus r
         "uniformly over {null,scalar,dict,list}^2 plus same-kind-other-content, list longer/shorter, "
         "key added/removed and equal rewrites, and (JSON classes) valid JSON of the OTHER root kind, "
         "after which every operation must raise until a repairing rewrite; then every read API is issued through roots and "
-        "handles, and setitem/append/delitem/setdefault through handles. Oracle: every outcome equals "
+        "handles, and setitem/append/delitem/setdefault through handles; one step in twenty starts a "
+        "script: a mutation (root clear()/reset() included), an outside rewrite, the same mutation again. Oracle: every outcome equals "
         "the plain model of the resource at call time (==), for handles only while attached by the "
         "C02 wording; after a write the independently read resource equals the model. Non-trivial = "
         "an operation through a tree that had not loaded since the last rewrite and whose expected "
